@@ -91,7 +91,7 @@ def check(run):
         menus = {0: full, 1: {"binary": range(n_at), "pow": (-2, 2), "root": (2,), "scale": True, "prefix": model.ALL_PREFIXES[9:15:5]}}
         maxdepth = 2
     else:
-        menus = {0: full, 1: dict(full, prefix=model.ALL_PREFIXES[::4]), 2: {"binary": range(6), "pow": (-1, 2), "scale": True}}
+        menus = {0: full, 1: dict(full, prefix=model.ALL_PREFIXES[::4]), 2: {"binary": (0, 1), "pow": (2,), "scale": True}}
         maxdepth = 3
     states, order, ntrans = {}, [], 0
     for i, a in enumerate(atoms):
@@ -104,7 +104,7 @@ def check(run):
     for depth in range(maxdepth):
         nxt = []
         for st in frontier:
-            if st.leaf:
+            if st.leaf or (depth == 2 and not set(st.mono) <= {0, 1, 2, 4}):
                 continue
             for lab, mono, scale, wrap, expr in c02.successors(atoms, st, menus[depth]):
                 ntrans += 1
